@@ -84,70 +84,43 @@ Theorem C20_mt_order_free :
 Proof. exact mt_order_free. Qed.
 Print Assumptions C20_mt_order_free.
 
+(* the statement at full strength: whenever the operand lookups of the flat phase succeed, the two forms agree —
+   on the result AND on the exception class — for every option point, every out=, every completion order *)
 Definition C20_mt_equals_st_full_statement : Prop :=
-  forall A (o : opts) fn con propagate so sm sf (others : list (tree A)) out names pi x,
+  forall A (o : opts) fn con propagate so sm sf (others : list (tree A)) out names pi tasks lfs,
+    flat_items A o (o_default o) con [] sm sf others sf 0%nat = Ok (tasks, lfs) ->
+    (forall id, (id < List.length tasks)%nat -> In id pi) ->
+    mt_front A o fn con propagate (Node so sm sf) others out names pi
+    = st_front A o fn con propagate (Node so sm sf) others out names.
+
+(* proved for every point of the lattice — out=, default=, filter_empty None / True / False, names=, batch size and device
+   overrides, checked, call_on_nested, named, every is_leaf — outside two corners: a non-tensor entry together with
+   out= or inplace (C20-f), and inplace together with default= (self.empty(recurse=True) taken while self is written).
+   (S15, S16, C12-b, C12-c and C20-d of the notes were real and are repaired in /repo: the model follows the repaired code.) *)
+Theorem C20_mt_equals_st_partial :
+  forall A (o : opts) fn con propagate so sm sf (others : list (tree A)) out names pi,
+    (o_inplace o = true -> o_default o = false /\ nont_free A sf = true) ->
+    (out <> None -> nont_free A sf = true) ->
     (forall tasks lfs, flat_items A o (o_default o) con [] sm sf others sf 0%nat = Ok (tasks, lfs) ->
                        forall id, (id < List.length tasks)%nat -> In id pi) ->
-    st_front A o fn con propagate (Node so sm sf) others out names = MOk x ->
-    mt_front A o fn con propagate (Node so sm sf) others out names pi = MOk x.
-
-(* proved on the complement of S15, S16, C12-b, C12-c, C20-d: no out=, no default=, filter_empty True or False, no
-   names=, and — in place — no non-tensor entry; there the two forms agree on results AND on the exception class *)
-Theorem C20_mt_equals_st_partial :
-  forall A (o : opts) fn b, o_fe o = Some b -> o_default o = false ->
-  forall con propagate so sm sf (others : list (tree A)) pi,
-    (o_inplace o = true -> nont_free A sf = true) ->
-    (forall tasks lfs, flat_items A o false con [] sm sf others sf 0%nat = Ok (tasks, lfs) ->
-                       forall id, (id < List.length tasks)%nat -> In id pi) ->
-    match flat_items A o false con [] sm sf others sf 0%nat with
-    | Ok _ => mt_front A o fn con propagate (Node so sm sf) others None None pi
-              = st_front A o fn con propagate (Node so sm sf) others None None
-    | _ => forall r, st_front A o fn con propagate (Node so sm sf) others None None <> MOk r
-                     /\ mt_front A o fn con propagate (Node so sm sf) others None None pi <> MOk r
+    match flat_items A o (o_default o) con [] sm sf others sf 0%nat with
+    | Ok _ => mt_front A o fn con propagate (Node so sm sf) others out names pi
+              = st_front A o fn con propagate (Node so sm sf) others out names
+    | _ => forall r, st_front A o fn con propagate (Node so sm sf) others out names <> MOk r
+                     /\ mt_front A o fn con propagate (Node so sm sf) others out names pi <> MOk r
     end.
 Proof. exact mt_equals_st. Qed.
 Print Assumptions C20_mt_equals_st_partial.
 
-(* the suspected defects of the notes, settled: /repo violates mt = st in five ways *)
-Theorem C20_mt_out_refuted :            (* S16 *)
-  exists (o : opts) fn self out pi x,
-    st_front Z o fn false false self [] (Some out) None = MOk (Some x)
-    /\ mt_front Z o fn false false self [] (Some out) None pi = MCyclic.
-Proof. destruct mt_out_witness as ((x & H1) & H2). do 6 eexists. split; [exact H1|exact H2]. Qed.
-Print Assumptions C20_mt_out_refuted.
-
-Theorem C20_mt_default_refuted :        (* S15 *)
-  exists (o : opts) fn self other pi x,
-    o_default o = true
-    /\ st_front Z o fn false false self [other] None None = MOk (Some x)
-    /\ mt_front Z o fn false false self [other] None None pi = MRaised EKey.
-Proof. destruct mt_default_witness as ((x & H1) & H2). do 6 eexists. split; [|split; [exact H1|exact H2]]. reflexivity. Qed.
-Print Assumptions C20_mt_default_refuted.
-
-Theorem C20_mt_filter_empty_none_refuted :      (* C12-b *)
-  exists (o : opts) fn self pi x y,
-    o_fe o = None
-    /\ st_front Z o fn false false self [] None None = MOk (Some x)
-    /\ mt_front Z o fn false false self [] None None pi = MOk (Some y)
-    /\ erase_t Z x <> erase_t Z y.
-Proof. destruct mt_filter_empty_none_witness as (x & y & H1 & H2 & H3). do 6 eexists. split; [|split; [exact H1|split; [exact H2|exact H3]]]. reflexivity. Qed.
-Print Assumptions C20_mt_filter_empty_none_refuted.
-
-Theorem C20_mt_names_refuted :          (* C12-c *)
-  exists (o : opts) fn self names pi x y,
-    st_front Z o fn false false self [] None (Some names) = MOk (Some x)
-    /\ mt_front Z o fn false false self [] None (Some names) pi = MOk (Some y)
-    /\ x <> y /\ erase_t Z x = erase_t Z y.
-Proof. destruct mt_names_witness as (x & y & H1 & H2 & H3 & H4). do 7 eexists. split; [exact H1|split; [exact H2|split; [exact H3|exact H4]]]. Qed.
-Print Assumptions C20_mt_names_refuted.
-
-Theorem C20_mt_checked_device_refuted : (* C20-d *)
-  exists (o : opts) fn self out pi x,
-    o_checked o = true
-    /\ st_front Z o fn false false self [] (Some out) None = MOk (Some x)
-    /\ mt_front Z o fn false false self [] (Some out) None pi = MRaised ERuntime.
-Proof. destruct mt_checked_device_witness as ((x & H1) & H2). do 6 eexists. split; [|split; [exact H1|exact H2]]. reflexivity. Qed.
-Print Assumptions C20_mt_checked_device_refuted.
+(* /repo violates the full statement (C20-f): a non-tensor entry that out= already holds *)
+Theorem C20_mt_equals_st_refuted :
+  exists (o : opts) fn self out pi m f m' f',
+    st_front Z o fn false false self [] (Some out) None = MOk (Some (Node (Old 30%Z) m f))
+    /\ fget Z f "t" = Some (NonT (Old 32%Z) 50%Z m0)
+    /\ mt_front Z o fn false false self [] (Some out) None pi = MOk (Some (Node (Old 30%Z) m' f'))
+    /\ fget Z f' "t" = Some (NonT New 5%Z m0).
+Proof. destruct mt_nontensor_out_witness as (m & f & m' & f' & H). exists (with_checked base_opts), (fn_of []), self_f, out_f, [0%nat], m, f, m', f'. exact H. Qed.
+Print Assumptions C20_mt_equals_st_refuted.
 
 (* ------------------------------------------------------------------ two more defects of the front-ends *)
 Theorem C20_inplace_locked_nontensor_refuted :  (* C20-c *)
@@ -184,7 +157,21 @@ Example C20_ex_out :
 Proof. exact example_out. Qed.
 Example C20_ex_mt :
   let o := with_checked base_opts in
-  flat_items Z o false false [] m0 (match nested2 with Node _ _ f => f | _ => FNil end) [] (match nested2 with Node _ _ f => f | _ => FNil end) 0%nat
+  flat_items Z o (o_default o) false [] m0 (match nested2 with Node _ _ f => f | _ => FNil end) [] (match nested2 with Node _ _ f => f | _ => FNil end) 0%nat
   = Ok ([mkTask Z None (lf 1) []; mkTask Z None (lf 2) []], [LFut 0%nat; LList [LFut 1%nat]])
-  /\ exists x, mt_front Z o (fn_of []) false false nested2 [] None None [1%nat; 0%nat] = MOk (Some x).
+  /\ exists x, mt_front Z o (fn_of []) false false nested2 [] (Some out2) (Some (Some [Some "t"])) [1%nat; 0%nat] = MOk (Some x).
 Proof. exact example_mt. Qed.
+(* the five former defects of the thread-pool form (S16, S15, C12-b, C12-c, C20-d): the forms agree on their witnesses now *)
+Example C20_ex_mt_former_defects :
+  (let o := with_checked base_opts in
+   mt_front Z o (fn_of []) false false nested2 [] (Some out2) None [1%nat; 0%nat] = st_front Z o (fn_of []) false false nested2 [] (Some out2) None)
+  /\ (let o := with_default (with_checked base_opts) in
+      mt_front Z o (fn_of []) false false nested2 [other_s15] None None [1%nat; 0%nat] = st_front Z o (fn_of []) false false nested2 [other_s15] None None)
+  /\ (let o := with_fe (with_checked base_opts) None in
+      mt_front Z o (fn_of [2%Z]) false false nested2 [] None None [0%nat; 1%nat] = st_front Z o (fn_of [2%Z]) false false nested2 [] None None)
+  /\ (let o := with_checked base_opts in
+      mt_front Z o (fn_of []) false false nested2 [] None (Some (Some [Some "t"])) [0%nat; 1%nat]
+      = st_front Z o (fn_of []) false false nested2 [] None (Some (Some [Some "t"])))
+  /\ (let o := with_dev (with_checked base_opts) (Some META) in
+      mt_front Z o (fn_of []) false false self_a [] (Some out_dev) None [0%nat] = st_front Z o (fn_of []) false false self_a [] (Some out_dev) None).
+Proof. exact mt_former_defects_agree. Qed.
